@@ -48,6 +48,13 @@ theorem safe_slice {B : Nat} {b : Bytes} {i j : Int} {k : Bytes → Res}
   simp only [List.length_take, List.length_drop]
   omega
 
+theorem safe_sliceLen {B blen : Nat} {i j : Int} {k : Nat → Res}
+    (h : 0 ≤ i ∧ i ≤ j ∧ j ≤ blen)
+    (hk : ∀ l : Nat, l = (j - i).toNat → Safe B (k l)) : Safe B (Res.sliceLen blen i j k) := by
+  unfold Res.sliceLen; simp only [h, and_self, if_true]
+  apply hk
+  omega
+
 theorem safe_readN {B n : Nat} {s : Bytes} {k : Bytes → Bytes → Res}
     (hk : ∀ x rest : Bytes, x.length = n → Safe B (k x rest)) : Safe B (Res.readN n s k) := by
   unfold Res.readN
